@@ -75,10 +75,33 @@ def table_seeded():
     return '\n'.join(rows)
 
 
+def table_counts():
+    import re
+    rows = ['| id | theorems in props/ | of which `_partial` | `_refuted` | proof / model files | obligations of the last quick run | correspondence+search evaluations | wall s |', '|---|---|---|---|---|---|---|---|']
+    for i in range(1, 21):
+        pid = f'C{i:02d}'
+        pp = os.path.join(VERIF, 'coq', 'props', pid + '.v')
+        if not os.path.exists(pp):
+            continue
+        txt = open(pp).read()
+        names = re.findall(r'^\s*(?:Theorem|Corollary)\s+([\w\']+)', txt, re.M)
+        req = set(re.findall(r'From\s+(?:Proofs|Model)\s+Require\s+(?:Import|Export)?\s*([^.]*)\.', txt))
+        nfiles = len({n for r in req for n in r.split()})
+        ev = {}
+        try:
+            ev = json.load(open(os.path.join(VERIF, 'evidence', pid + '.json')))
+        except Exception:
+            pass
+        c = ev.get('coverage', {})
+        rows.append(f"| {pid} | {len(names)} | {sum(1 for n in names if '_partial' in n)} | {sum(1 for n in names if '_refuted' in n)} | {nfiles} | "
+                    f"{c.get('discharged', '?')}/{c.get('obligations', '?')} | {c.get('evaluations', '?')} | {ev.get('wall_s', '?')} |")
+    return '\n'.join(rows)
+
+
 def main():
     p = os.path.join(VERIF, 'DESIGN.md')
     s = open(p).read()
-    for name, fn in (('fixes', table_fixes), ('known', table_known), ('seeded', table_seeded)):
+    for name, fn in (('fixes', table_fixes), ('known', table_known), ('seeded', table_seeded), ('counts', table_counts)):
         b, e = f'<!-- BEGIN {name} -->', f'<!-- END {name} -->'
         if b in s and e in s:
             s = s[:s.index(b) + len(b)] + '\n' + fn() + '\n' + s[s.index(e):]
